@@ -31,7 +31,7 @@ class ModelMixin:
                      "ite", "unit", "is_none", "is_str", "is_int", "is_ref", "last", "ref", "allocated",
                      "held", "is_list_of_pos_int", "cls_id", "is_float", "sval", "ival", "dget", "singleton", "str", "is_bool", "is_dict", "is_list",
                      "setof", "contains", "prefix_of", "is_bytes", "is_cls", "map_int2str", "joinstr", "split", "lookup_global",
-                     "funcval", "seqmap", "extends", "only_changed", "UNSET", "unchanged", "unchanged_old", "cls_module_name", "all_reports", "empty_log", "count_failed", "suffix_of", "proj_a", "all_b", "all_tag", "card", "outside", "mro", "none_in"}
+                     "funcval", "seqmap", "extends", "only_changed", "UNSET", "unchanged", "unchanged_old", "cls_module_name", "all_reports", "empty_log", "count_failed", "suffix_of", "proj_a", "all_b", "all_tag", "card", "outside", "mro", "none_in", "is_concat", "none_missing", "is_subset", "union"}
 
     # ------------------------------------------------------------------ spec-mode calls
     def spec_call(self, e, st):
@@ -340,10 +340,26 @@ class ModelMixin:
             d1, m1 = self.as_sdict(st, self.spec_builtin(st, "dict_of", [a[0]], e))
             ks = self.as_sset(st, a[1]) if a[1].k in ("sset", "cset") else self.as_sdict(st, self.spec_builtin(st, "dict_of", [a[1]], e))[0]
             return SV("sdict", (z3.SetDifference(d1, ks), self.ite_map(ks, z3.K(Val, NoneV), m1)))
+        if name == "is_concat":
+            # is_concat(x, a, b): x is the Python value a + b for str/bytes operands (str+bytes mismatches raise instead)
+            x, p, q = box(a[0]), box(a[1]), box(a[2])
+            return SV("bool", z3.Or(z3.And(Val.is_StrV(x), Val.is_StrV(p), Val.is_StrV(q), Val.sv(x) == z3.Concat(Val.sv(p), Val.sv(q))),
+                                    z3.And(Val.is_BytesV(x), Val.is_BytesV(p), Val.is_BytesV(q), Val.yv(x) == z3.Concat(Val.yv(p), Val.yv(q)))))
         if name == "mro":
             from .libx import mro_of
             v = self.concretize(st, a[0])
             return SV("seq", mro_of(v.t), h="cls")
+        if name == "is_subset":
+            return SV("bool", z3.IsSubset(self.as_sset(st, a[0]), self.as_sset(st, a[1])))
+        if name == "union":
+            return SV("sset", z3.SetUnion(self.as_sset(st, a[0]), self.as_sset(st, a[1])))
+        if name == "none_missing":
+            # every key of the sequence is a key of the dict
+            sq = self.spec_builtin(st, "seq", [a[0]], e).t
+            d1, m1 = self.as_sdict(st, self.spec_builtin(st, "dict_of", [a[1]], e))
+            k = z3.Const("k!nm", Val)
+            return SV("bool", z3.ForAll([k], z3.Implies(z3.Contains(sq, z3.Unit(k)), z3.Select(d1, k)),
+                                        patterns=[z3.Contains(sq, z3.Unit(k))]))
         if name == "none_in":
             sq = self.spec_builtin(st, "seq", [a[0]], e).t
             d1, m1 = self.as_sdict(st, self.spec_builtin(st, "dict_of", [a[1]], e))
